@@ -173,6 +173,11 @@ class VTuple(Val):
         self.items = items
 
 
+class VOpaque(Val):
+    """A value the model does not interpret (a float, a clock reading, the result of arithmetic on those): it can be stored and passed
+    on; branching on it or comparing it is outside the model (Unsupported)."""
+
+
 class VEmptyList(Val):
     """`[]` / `()` whose element type is not known yet: becomes the worker list (first append of a thread) or a node list."""
 
@@ -225,6 +230,10 @@ def coerce(a, b):
         return (VNodeList(False, 0) if isinstance(b, VNodeList) else b), b
     if isinstance(b, VEmptyList) and isinstance(a, (VNodeList, VRef)):
         return a, (VNodeList(False, 0) if isinstance(a, VNodeList) else a)
+    if isinstance(a, VOpaque) and isinstance(b, VNone):
+        return a, a
+    if isinstance(b, VOpaque) and isinstance(a, VNone):
+        return b, b
     if isinstance(a, VNone):
         return default_like(b), b
     if isinstance(b, VNone):
@@ -241,7 +250,7 @@ def default_like(v):
         return VBoundCall(v.node, z3.BoolVal(False))
     if isinstance(v, VNodeList):
         return VNodeList(True, 0)
-    if isinstance(v, (VRef, VTuple, VNone, VEmptyList)):
+    if isinstance(v, (VRef, VTuple, VNone, VEmptyList, VOpaque)):
         return v
     return v.rebuild([z3.BitVecVal(0, t.size()) if z3.is_bv(t) else z3.BoolVal(False) for t in v.terms()])
 
@@ -254,7 +263,7 @@ def mux(c, a, b):
         if a.key() != b.key():
             raise Unsupported(f"merge of different objects {a.key()} / {b.key()}")
         return a
-    if isinstance(a, (VNone, VTuple, VEmptyList)):
+    if isinstance(a, (VNone, VTuple, VEmptyList, VOpaque)):
         return a
     return a.rebuild([ite(c, x, y) for x, y in zip(a.terms(), b.terms())])
 
@@ -841,6 +850,8 @@ class Encoder:
                 return VInt(v)
             if isinstance(v, str):
                 return VRef("str", v)
+            if isinstance(v, float):
+                return VOpaque()
             raise Unsupported(f"constant {v!r}")
         if k == "tmp":
             return rd(t[1])
@@ -867,6 +878,10 @@ class Encoder:
             return VBool(NOT(r) if t[3] else r)
         if k == "bin":
             a, b = self.eval(t[2], s, tid, rd), self.eval(t[3], s, tid, rd)
+            if isinstance(a, (VOpaque, VNone)) or isinstance(b, (VOpaque, VNone)) or (isinstance(a, VRef) and a.kind == "glob") or (isinstance(b, VRef) and b.kind == "glob"):
+                # arithmetic on clock readings / floats / module constants (time.monotonic() + GRACE_SECONDS): uninterpreted
+                # (an unknown module-level call evaluates to None in the model, hence VNone here)
+                return VOpaque()
             if not (isinstance(a, VInt) and isinstance(b, VInt)):
                 raise Unsupported("arithmetic on non-ints")
             return VInt(a.v + b.v if t[1] == "+" else a.v - b.v)
@@ -1132,6 +1147,8 @@ class Encoder:
                     x, y = args[0].v, args[1].v
                     lt = z3.ULT(x, y)
                     return VInt(ite(lt, x, y) if name == "min" else ite(lt, y, x))
+                if any(isinstance(x, (VOpaque, VNone)) for x in args):
+                    return VOpaque()
                 raise Unsupported(name)
             if name in ("get_full_call_scope",):
                 return VRef("scope", "scope")
@@ -1272,6 +1289,13 @@ class Encoder:
                 sc["started_thr"] = [OR(sc["started_thr"][w], o.id == w) for w in range(W)]
                 return VNone()
             if meth == "join":
+                timed = [x for x in list(args) + list(kws.values()) if not isinstance(x, VNone)]
+                if timed:
+                    # join(timeout): returns when the thread has ended OR the time is up -- time is not modelled, so: at any moment
+                    note = f"line {ins.line}: Thread.join with a timeout may return while the thread is still running"
+                    if note not in self.fe.notes:
+                        self.fe.notes.append(note)
+                    return VNone()
                 e0, e1 = self._endpcs("worker")
                 done = OR(*[AND(o.id == w, OR(sc["pc_w"][w] == e0, sc["pc_w"][w] == e1)) for w in range(W)])
                 g.append(done)
